@@ -4092,3 +4092,7 @@ mod tests {
         );
     }
 }
+
+#[cfg(kani)]
+#[path = "/verif/kani/arrow-ipc/reader.rs"]
+mod verif_kani;
